@@ -848,3 +848,12 @@ add('C09.twin_reset_before_sample', 'C09', [
     (CALF, "    for data in calibration_dataset:\n      # Initialize tensor names that are updated in this round of calibration.\n      updated_tensor_names = set()\n",
      "    for data in calibration_dataset:\n      self._tfl_interpreter.reset_all_variables()\n      # Initialize tensor names that are updated in this round of calibration.\n      updated_tensor_names = set()\n"),
 ], (), 'the variables are reset before every sample instead of after it: every sample still starts from the initial state', kind='twin')
+
+# policy entries as regular expressions over op names (C13.R1; seeded b13-C13)
+DPF = 'default_policy.py'
+_DP_OLD = "    for op in json_policy_content[\"ops_per_config\"][json_policy_config]:\n      op_name = _TFLOpName(op)\n      quant_configs = copy.deepcopy(unrolled_configs)\n      if op in policy.keys():\n        quant_configs += policy[op_name]\n      policy[op_name] = quant_configs\n"
+_DP_NEW = "    for op_entry in json_policy_content[\"ops_per_config\"][json_policy_config]:\n      for op_name in [o for o in _TFLOpName if o != _TFLOpName.ALL_SUPPORTED and re.%s(op_entry, o.value)]:\n        quant_configs = copy.deepcopy(unrolled_configs)\n        if op_name in policy:\n          quant_configs += policy[op_name]\n        policy[op_name] = quant_configs\n"
+add('C13.policy_entry_prefix_regex', 'C13', [(DPF, "import json\n", "import json\nimport re\n"), (DPF, _DP_OLD, _DP_NEW % 'match')], 'C13.R1',
+    'policy entries are matched as regular expressions with re.match (a prefix match): "CONV_2D" also selects CONV_2D_TRANSPOSE (seeded b13-C13)')
+add('C13.twin_policy_entry_full_regex', 'C13', [(DPF, "import json\n", "import json\nimport re\n"), (DPF, _DP_OLD, _DP_NEW % 'fullmatch')], (),
+    'policy entries are matched as regular expressions with re.fullmatch: plain names select themselves only', kind='twin')
